@@ -50,6 +50,7 @@ def run_property(prop, tier, replay=None):
 
     # ---- (a) model checking, in the background
     mc_results = []
+    apa_results = []
 
     def mc_work():
         for m in P.get("models", []):
@@ -67,6 +68,12 @@ def run_property(prop, tier, replay=None):
                           coverage=m.get("coverage", m["module"] != "MC_Server"), heap=m.get("heap", "12g"),
                           simulate=m.get("simulate_" + tier), depth=m.get("depth"))
             mc_results.append((m, consts, r))
+        for ap in P.get("apalache", []):
+            if replay or tier not in ap.get("tiers", ("quick", "thorough")):
+                continue
+            outcome, wall = C.run_apalache(ap["spec"], ap["cinit"], ap["init"], ap["inv"], ap["length"], wd,
+                                           timeout=ap.get("timeout", 900))
+            apa_results.append(dict(ap, outcome=outcome, wall_s=round(wall, 1)))
 
     mc_thread = threading.Thread(target=mc_work)
     mc_thread.start()
@@ -223,6 +230,14 @@ def run_property(prop, tier, replay=None):
         elif r.timeout and not m.get("simulate_" + tier) and not m.get("timeout_ok"):
             notes.append("model %s/%s hit its time limit after %d distinct states (bounded, not exhaustive)" % (
                 m["module"], m.get("name", "mc"), r.distinct))
+
+    for ar in apa_results:
+        if ar["outcome"] != ar["expect"]:
+            tool_err = "apalache %s --init=%s --inv=%s: outcome %s, expected %s" % (
+                ar["spec"], ar["init"], ar["inv"], ar["outcome"], ar["expect"])
+    if apa_results:
+        notes.append("apalache: " + "; ".join("%s %s/%s/%s len %d -> %s (%ss)" % (
+            a["what"], a["cinit"], a["init"], a["inv"], a["length"], a["outcome"], a["wall_s"]) for a in apa_results))
 
     # ---- evidence
     distinct = {}
